@@ -172,6 +172,25 @@ func (w *World) consumed(x *hb.Exec) bool {
 	return false
 }
 
+// consumedStep returns the step at which the reader asked for more after
+// having read the response of x (0 = never).
+func (w *World) consumedStep(x *hb.Exec) uint64 {
+	if x.RespEnd == 0 {
+		return 0
+	}
+	for _, c := range w.Env.Conns {
+		if c.N != x.Conn {
+			continue
+		}
+		for _, m := range c.Marks {
+			if int(m[0]) >= x.RespEnd {
+				return m[1]
+			}
+		}
+	}
+	return 0
+}
+
 func (w *World) consumedSuccess(nonce uint64, byNonce map[uint64][]*hb.Exec) *hb.Exec {
 	for _, x := range byNonce[nonce] {
 		if x.Applied && x.Err == "" && w.consumed(x) {
